@@ -497,8 +497,12 @@ def shard(binpath, seed, sh, n, env=None, runner=None, tag="native"):
         if r is None:
             continue
         ep = c.get("ep", c["op"]).split(":")[0]
-        res.note([c.get("ep"), c.get("data"), c.get("item"), c.get("files")], r in ("ok", "err", "panic", "parse_err"),
-                 cls=[f"ep:{ep}:{r}", f"input:{c['meta']['cls']}", f"build:{tag}"])
+        cls = [f"ep:{ep}:{r}", f"input:{c['meta']['cls']}", f"build:{tag}"]
+        if o.get("log_records"):
+            # the executor's logger admits every level and formats every record on the data under test
+            cls.append("library_log_statements_formatted")
+            res.extras["library_log_records_formatted"] = res.extras.get("library_log_records_formatted", 0) + o["log_records"]
+        res.note([c.get("ep"), c.get("data"), c.get("item"), c.get("files")], r in ("ok", "err", "panic", "parse_err"), cls=cls)
     if sh == 0:
         for c, o in list(zip(cases, obs))[:3]:
             res.sample({"entry_point": c.get("ep"), "input_class": c["meta"]["cls"], "data": str(c.get("data"))[:200], "outcome": o.get("r")})
